@@ -2,6 +2,8 @@ import Chain33Model.Proofs.C15Sub
 /-!
 C15 — lifting the step lemmas to op lists (`run`).
 -/
+set_option linter.unusedSectionVars false
+set_option linter.unusedSimpArgs false
 namespace C15
 section
 variable {σ κ : Type} [DecidableEq σ] [DecidableEq κ] (c : Cfg σ κ)
